@@ -28,7 +28,7 @@ def run(ctx: Context) -> None:
     ctx.rule('R14.3', "labels: every batch of triangles is labelled with the face index taken from the same index array that gathered its polygons; the ear path labels with its loop index", floor=4)
     ctx.rule('R14.4', "accounting: storage is preallocated for (length - 3) triangles per cell with geometry, written through one cursor, and the cursor is asserted to reach that total", floor=5)
     ctx.rule('R14.5', "vertex columns pair up: x<k>, y<k> come from triangle vertex k, v<k> is joined on exactly [x<k>, y<k>]; the vertex table is the de-duplicated coordinate list and is what the indexes refer to", floor=6)
-    ctx.rule('R14.6', "ear clipping: a diagonal (i, i+2) is accepted only if it is covered by the polygon and meets the ring at its two end points only; the ear (i, i+1, i+2) is recorded and vertex i+1 removed; n-3 ears plus the final triangle", floor=5)
+    ctx.rule('R14.6', "ear clipping: a diagonal (i, i+2) is accepted only if it is covered by the polygon and meets the ring at its two end points only; the ear (i, i+1, i+2) is recorded and vertex i+1 removed; n-3 ears plus the final triangle", floor=6)
     ctx.assume("NOT decided: containment, non-overlap and exact cover of the triangles (GEOS geometry at run time); pandas de-duplication and joins")
 
     td = ctx.func(f"{TRI}.triangulate_dataset")
@@ -230,6 +230,19 @@ def run(ctx: Context) -> None:
               and all(isinstance(r.value, ast.Name) and r.value.id == mc.name('tris') for r in tcp.returns()))
         ctx.check('R14.6', ok, "the last triangle is the remaining ring; a polygon with no ear raises; the count is asserted", tcp, tcp.node,
                   construct='for ... else: raise; triangles[k] = polygon.exterior.coords[:-1]; assert k + 1 == count')
+        # every triangle of the result is either a tested ear or the last remaining ring: one exit, after the loop,
+        # and no other store into the result array
+        tris = mc.name('tris')
+        stores = [n for n in walk_no_nested(tcp.node) if isinstance(n, ast.Assign) and any(isinstance(t, ast.Subscript) and isinstance(t.value, ast.Name) and t.value.id == tris for t in n.targets)]
+        from .common import path_conditions
+        rets = tcp.returns()
+        def after_loop(node):
+            return wl is not None and node.lineno > wl.end_lineno and all(t is wl.test for t, _ in path_conditions(tcp, node))
+        ok = (wl is not None and len(rets) == 1 and after_loop(rets[0])
+              and len(stores) == 2 and test is not None and sum(1 for st_ in stores if any(x is st_ for x in ast.walk(test))) == 1
+              and sum(1 for st_ in stores if after_loop(st_)) == 1)
+        ctx.check('R14.6', ok, "every triangle returned was either accepted by the ear test or is the final remaining triangle: the only exit follows the clipping loop and nothing else writes the result",
+                  tcp, rets[0] if rets else tcp.node, construct=f"{len(rets)} exit(s); stores into the result: {[norm_text(s_)[:50] for s_ in stores]}")
 
 
 
